@@ -56,6 +56,54 @@ bool no_neg_top_exp(const Basic &b)
     return true;
 }
 
+// a power with a non-integer exponent whose base has a non-trivial denominator that is not a positive
+// number: as_numer_denom splits it over numerator and denominator (known finding / fixed by patch)
+bool has_quotient_power(const Basic &b)
+{
+    if (is_a<Pow>(b)) {
+        const Pow &p = down_cast<const Pow &>(b);
+        if (!is_a<Integer>(*p.get_exp())) {
+            RCP<const Basic> n, d;
+            as_numer_denom(p.get_base(), outArg(n), outArg(d));
+            if (!(is_a_Number(*d) && down_cast<const Number &>(*d).is_positive()))
+                return true;
+        }
+    }
+    for (auto &a : b.get_args())
+        if (has_quotient_power(*a))
+            return true;
+    return false;
+}
+// a power with a non-integer exponent whose base evaluates to a real number (own evaluator)
+bool has_realbase_power(const Basic &b)
+{
+    if (is_a<Pow>(b)) {
+        const Pow &p = down_cast<const Pow &>(b);
+        if (!is_a<Integer>(*p.get_exp())) {
+            try {
+                nev::Env env;
+                nev::C v = nev::ev(*p.get_base(), env);
+                if (nev::is_real(v))
+                    return true;
+            } catch (...) {
+            }
+        }
+    }
+    for (auto &a : b.get_args())
+        if (has_realbase_power(*a))
+            return true;
+    return false;
+}
+bool has_class(const Basic &b, TypeID t)
+{
+    if (b.get_type_code() == t)
+        return true;
+    for (auto &a : b.get_args())
+        if (has_class(*a, t))
+            return true;
+    return false;
+}
+
 // compare at points; verdict string "" = ok
 std::string judge_points(const Basic &lhs, const Basic &rhs, bool positive, bool conj_rhs, const std::string &key,
                          uint64_t seed)
@@ -127,7 +175,9 @@ std::string hx_run(const std::string &line, std::string &oracle)
             }
             std::string v = judge_points(*div(n, d), *e, true, false, "nd-value", seed);
             if (!v.empty()) {
-                // classify the known split of a non-integer power of a quotient
+                // classify the split of a non-integer power of a quotient
+                if (has_quotient_power(*e))
+                    v.replace(0, std::string("FAIL:nd-value").size(), "FAIL:nd-quotpow-split");
                 oracle = v + " e=" + e->__str__() + " n=" + n->__str__() + " d=" + d->__str__();
             }
             return out;
@@ -156,12 +206,16 @@ std::string hx_run(const std::string &line, std::string &oracle)
             nev::Env env;
             try {
                 nev::C vr = nev::ev(*re, env), vi = nev::ev(*im, env), ve = nev::ev(*e, env);
+                if (!nev::finite(vr) || !nev::finite(vi) || !nev::finite(ve)) {
+                    stat("points_discarded_overflow");
+                    return out;
+                }
                 stat("points_judged");
                 nev::R scale = std::max((nev::R)1, std::abs(ve));
                 if (std::fabs(vr.imag()) > 1e-9L * scale || std::fabs(vi.imag()) > 1e-9L * scale) {
                     std::ostringstream ss;
                     ss.precision(12);
-                    ss << "FAIL:ri-notreal:re=(" << (double)vr.real() << "," << (double)vr.imag() << ") im=("
+                    ss << (has_realbase_power(*e) ? "FAIL:ri-realbase-pow:re=(" : "FAIL:ri-notreal:re=(") << (double)vr.real() << "," << (double)vr.imag() << ") im=("
                        << (double)vi.real() << "," << (double)vi.imag() << ") e=" << e->__str__()
                        << " re=" << re->__str__() << " im=" << im->__str__();
                     oracle = ss.str();
@@ -171,7 +225,9 @@ std::string hx_run(const std::string &line, std::string &oracle)
                 if (!nev::close(sum, ve, 1e-9L)) {
                     std::ostringstream ss;
                     ss.precision(12);
-                    ss << "FAIL:ri-value:re+I*im=(" << (double)sum.real() << "," << (double)sum.imag() << ") e=("
+                    // the imaginary part of cot(a + b*I) has the wrong sign (known finding)
+                    bool cotsign = has_class(*e, SYMENGINE_COT) && nev::close(std::conj(sum), ve, 1e-9L);
+                    ss << (cotsign ? "FAIL:ri-cot-imag-sign:re+I*im=(" : "FAIL:ri-value:re+I*im=(") << (double)sum.real() << "," << (double)sum.imag() << ") e=("
                        << (double)ve.real() << "," << (double)ve.imag() << ") e=" << e->__str__();
                     oracle = ss.str();
                 }
